@@ -1,4 +1,5 @@
 """C15 - ignoring or removing a class affects that class only (Engines F, E)."""
+from .. import rules_flow as RF
 from .. import rules_matlab as RM
 from .. import rules_pybind as RP
 
@@ -22,3 +23,4 @@ def run(ctx, rep):
     rep.run(RM.rule_every_class_iteration_filtered, ctx, rep, "X2")
     rep.run(RM.rule_cross_class_state_keyed_by_class, ctx, rep, "X4")
     rep.run(RM.rule_none_result_handled, ctx, rep, "X3")
+    rep.run(RF.rule_locals_defined, ctx, rep, "U1", packages=("gtwrap/matlab_wrapper", "gtwrap/pybind_wrapper.py"), min_functions=3)
